@@ -240,8 +240,11 @@ def _is_num(t):
 def uf_axioms():
     """quantified forms (E-matching, none of them generates new MUL / DIV applications); the ground instances for the
     applications that occur in an obligation are added by pv/ufarith.py"""
-    a, L, d = z3.Reals('a!u L!u d!u')
+    a, L, d, b = z3.Reals('a!u L!u d!u b!u')
     return [z3.ForAll([a], z3.And(MUL(a, 0) == 0, MUL(0, a) == 0)),
+            # commutativity also for products that only appear under a binder (summands of SIGMA): each instance creates
+            # at most the swapped application, so matching terminates
+            z3.ForAll([a, b], MUL(a, b) == MUL(b, a), patterns=[MUL(a, b)]),
             z3.ForAll([a, L], z3.Implies(L != 0, DIV(MUL(a, L), L) == a), patterns=[DIV(MUL(a, L), L)]),
             z3.ForAll([d], z3.Implies(d != 0, DIV(0, d) == 0))]
 
